@@ -80,6 +80,13 @@ F2_TEMPLATES = [
     "o(i) = V(i,k) - W(i) - U(i,k)",
     "o() = 2 + Y(k) + Z(k)",
     "o(i) = V(i,k) * Y(k) + W(i) + U(i,k)",
+    # products of sums that must be distributed (signs of the expanded terms matter)
+    "o() = (Y(k) - X()) * (Z(k) - E())",
+    "o() = (X() - Y(k)) * (E() - Z(k))",
+    "o() = (Y(k) - X()) * (Z(k) + E())",
+    "o(i) = (V(i,k) - W(i)) * (U(i,k) - W(i))",
+    "o() = (Y(k) + X()) * (Z(k) - E()) - Y(k)",
+    "o() = (Y(k) - X() - 2) * (Z(k) - E())",
 ]
 
 
